@@ -26,6 +26,7 @@ class Defs:
         self.vararg = a.vararg.arg if a.vararg else None
         self.kwarg = a.kwarg.arg if a.kwarg else None
         self.defs: dict[str, list] = {}
+        self._mut = None
         self._collect(func_node)
 
     def _bind(self, target, value):
@@ -75,13 +76,15 @@ class Defs:
 
     def mutations(self, name):
         """Values appended/updated into a local container: x.append(v), x.extend(v), x.update(v), x[k] = v."""
-        out = []
-        for n in ast.walk(self.func):
-            if isinstance(n, ast.Call) and isinstance(n.func, ast.Attribute) and isinstance(n.func.value, ast.Name) and n.func.value.id == name:
-                if n.func.attr in ("append", "extend", "update", "insert", "add", "setdefault"):
-                    out.extend(n.args)
-                    out.extend(k.value for k in n.keywords)
-        return out
+        if self._mut is None:
+            self._mut = {}
+            for n in ast.walk(self.func):
+                if isinstance(n, ast.Call) and isinstance(n.func, ast.Attribute) and isinstance(n.func.value, ast.Name):
+                    if n.func.attr in ("append", "extend", "update", "insert", "add", "setdefault"):
+                        lst = self._mut.setdefault(n.func.value.id, [])
+                        lst.extend(n.args)
+                        lst.extend(k.value for k in n.keywords)
+        return self._mut.get(name, [])
 
 
 DEFAULT_SAFE_ATTRS = frozenset(
